@@ -23,6 +23,40 @@ def gen_scenario(rng):
     return {"world": w, "requests": reqs + [last], "env0": env0}
 
 
+def gen_scenario_full(rng):
+    """scenarios aimed at the composed model (setup + resolver): the other dependency-line forms processArgs
+    accepts (bracketed expression without a version, relational version, -j with a version), and every request
+    of the sequence may carry --keep / --just / --max-depth or name a version"""
+    import re
+    w = S.gen_world(rng)
+    for name, vs in w["products"].items():
+        for v, lines in vs.items():
+            for i, l in enumerate(lines):
+                m = re.match(r"(setupRequired|setupOptional)\((\w+)", l)
+                if m and rng.random() < 0.4:
+                    dep, v1, v2 = m.group(2), rng.choice(S.VERSIONS), rng.choice(S.VERSIONS)
+                    form = rng.choice(["%s [>= %s]" % (dep, v1), "%s >= %s" % (dep, v1), "%s %s [== %s]" % (dep, v1, v2),
+                                       "%s -j %s" % (dep, v1), "%s < %s" % (dep, v1), "%s %s [> %s]" % (dep, v1, v2)])
+                    lines[i] = "%s(%s)" % (m.group(1), form)
+    reqs = []
+    for _ in range(rng.choice([1, 2, 3, 4])):
+        rq = S.gen_request(rng, w, allow_fail=0.05)
+        r = rng.random()
+        if r < 0.3:
+            rq["keep"] = True
+        elif r < 0.4:
+            rq["just"] = True
+        elif r < 0.55:
+            rq["max_depth"] = rng.choice([0, 1, 2])
+        elif r < 0.62:
+            rq = {"name": rq["name"], "fwd": False}
+        reqs.append(rq)
+    env0 = {"PATH": "/usr/bin:/bin"}
+    if rng.random() < 0.3:
+        env0["XLIST"] = "/pre/x;/pre/y"
+    return {"world": w, "requests": reqs, "env0": env0}
+
+
 def contributions_state(res, env, name, version):
     """(present elements/values, absent elements/values) of one product version in env"""
     paths, sets, _ = S.own_contributions(res, name, version)
@@ -120,6 +154,10 @@ def run(ctx):
         ctx.sample({"requests": s["requests"], "env0": s["env0"], "products": s["world"]["products"]})
     for i in range(0, len(scenarios), 400):
         S.run_scenarios(ctx, scenarios[i:i + 400], oracle)
+    # generated after (and so without disturbing) the scenarios above
+    extra = [gen_scenario_full(ctx.rng) for _ in range(ctx.size(80, 1200))]
+    for i in range(0, len(extra), 400):
+        S.run_scenarios(ctx, extra[i:i + 400], oracle)
 
 
 def replay(ctx, path):
